@@ -604,6 +604,16 @@ impl ElementRaw {
                     }
                 }
             }
+
+            // an element that is identifiable in the target version needs its SHORT-NAME; it may be missing if the
+            // element is not identifiable in the version it was copied from
+            if self.elemtype.is_named_in_version(target_version)
+                && !matches!(copy.content.first(), Some(ElementContent::Element(first)) if first.element_name() == ElementName::ShortName)
+            {
+                return Err(AutosarDataError::VersionIncompatibleData {
+                    version: target_version,
+                });
+            }
         }
 
         Ok(copy_wrapped)
